@@ -151,3 +151,7 @@ Proof.
   - vm_compute. reflexivity.
 Qed.
 
+
+(* the graph walk of backward follows `_children`; the constructor keeps children only for results that require grad *)
+Lemma backward_confined_to_tracked_graph_pf : untracked_results_keep_no_children = true.
+Proof. vm_compute. reflexivity. Qed.
